@@ -219,6 +219,13 @@ class ExprMixin:
         if e.keys:
             if all(isinstance(k, ast.Constant) and isinstance(k.value, str) for k in e.keys):
                 return VRecord({k.value: self.eval(v) for k, v in zip(e.keys, e.values)})
+            t = self.expect_type(e)
+            if isinstance(t, ty.TDict) and all(k is not None for k in e.keys):
+                self._expect = None
+                d = self.new_dict(t)
+                for k, v in zip(e.keys, e.values):        # later duplicates overwrite, first insertion keeps its place
+                    self.dict_set(d, self.eval(k), self.eval(v))
+                return d
             raise Unsupported('non-empty dict display')
         t = self.expect_type(e)
         if t is None:
